@@ -1,15 +1,15 @@
 \* C03 / Pipeline: export of all interleavings of the cache operations of two
 \* concurrent requests (repaired rule model; the cache steps are the same in
 \* every rule model) for replay against the real executor: one extension,
-\* caches {none, map, lru1, lru2}, 6 request classes.  No VIEW: the order of
+\* caches {none, map, lru1, lru2}, 7 request classes (incl. "invalid by another rule").  No VIEW: the order of
 \* cache operations (glog) distinguishes behaviours.  Needs -workers 1.
-\* Measured: 19 304 distinct / 33 576 generated states, 1 216 distinct behaviours printed, 4 s (1 worker).
+\* Measured: 1 488 distinct behaviours printed, about 5 s (1 worker).
 SPECIFICATION MCSpec
 CONSTANTS
   Reqs = {1, 2}
   RuleModel = "config"
   Fuse = TRUE
   ExtChoice = "one"
-  ReqChoice = "small"
+  ReqChoice = "sched"
 CONSTRAINT Export
 INVARIANTS TypeOK I1 I2
